@@ -59,7 +59,7 @@ def shards(tier, seed, scale):
             hs = 0 if i % 2 == 0 else 1 + (seed * 7919 + i) % 4000000
             out.append(dict(seed=seed, shard=i, nshards=len(ic.REFERENCED) * split, tier=tier, n=per,
                             arch=name, part=j, nparts=split, hashseed=hs,
-                            walk_rounds=WALK_ROUNDS[tier], walk_stride=stride))
+                            walk_rounds=ic.walk_rounds(WALK_ROUNDS[tier]), walk_stride=stride))
     return out
 
 
@@ -92,32 +92,37 @@ def compare_batch(spec, batch, rec, workdir):
                 vd2, _ = ir.verdict(batch[k][1].l, dict((t, res2[t][j]) for t in res2))
                 if vd2.startswith("agree"):
                     verdicts[k] = ("byte_order", None)
-    prefix_caused = set()
+    prefix_caused = {}
     if spec.family.startswith("x86"):
         # is the prefix the mechanism?  Ask again without the legacy prefixes: when miasm still
         # decodes the same mnemonic and the references now agree, the finding is keyed by the
         # prefix class instead of the mnemonic.
-        idx, stripped = [], []
-        for k, (vd, _) in enumerate(verdicts):
-            if vd not in ("ref_invalid", "ref_length"):
-                continue
-            data, instr, _ = batch[k]
-            if not ic.x86_prefix_class(instr.b, spec.mode) in ("g1", "o", "a", "seg"):
-                continue
-            bare = ic.x86_strip_legacy(data)
-            bare = bare + data[:16 - len(bare)]
-            i2, _ = ic.decode(spec, bare, 0)
-            if i2 is None or i2.name != instr.name:
-                continue
-            idx.append(k)
-            stripped.append((bare, i2))
-        if idx:
-            ref3 = ir.Reference(view, workdir)
-            res3 = ref3.run([slot_of(spec, view, b) for b, _ in stripped])
-            for j, k in enumerate(idx):
-                vd3, _ = ir.verdict(stripped[j][1].l, dict((t, res3[t][j]) for t in res3))
-                if vd3.startswith("agree"):
-                    prefix_caused.add(k)
+        # two stages: first without lock/rep/repne only (66 F2 0F 29 is MOVAPD behind a stray F2),
+        # then without any legacy prefix
+        for only in (("lock", "rep", "repne"), None):
+            idx, stripped = [], []
+            for k, (vd, _) in enumerate(verdicts):
+                if vd not in ("ref_invalid", "ref_length") or k in prefix_caused:
+                    continue
+                data, instr, _ = batch[k]
+                if not ic.x86_prefix_class(instr.b, spec.mode) in ("g1", "o", "a", "seg"):
+                    continue
+                bare = ic.x86_strip_legacy(data, only)
+                if len(bare) == len(data):
+                    continue
+                bare = bare + data[:16 - len(bare)]
+                i2, _ = ic.decode(spec, bare, 0)
+                if i2 is None or i2.name != instr.name:
+                    continue
+                idx.append(k)
+                stripped.append((bare, i2))
+            if idx:
+                ref3 = ir.Reference(view, workdir)
+                res3 = ref3.run([slot_of(spec, view, b) for b, _ in stripped])
+                for j, k in enumerate(idx):
+                    vd3, _ = ir.verdict(stripped[j][1].l, dict((t, res3[t][j]) for t in res3))
+                    if vd3.startswith("agree"):
+                        prefix_caused[k] = "g1" if only else ic.x86_prefix_class(batch[k][1].b, spec.mode)
     for k, ((data, instr, origin), (vd, detail)) in enumerate(zip(batch, verdicts)):
         rec.count("%s:%s" % (spec.name, vd))
         if vd in ("agree", "agree_partial", "refs_disagree"):
@@ -144,7 +149,7 @@ def compare_batch(spec, batch, rec, workdir):
                      "(aarch64_be) reads it little-endian and rejects it" % (ic.hexs(data[:4]), text), wit)
         elif k in prefix_caused:
             rec.count("%s:prefix_caused" % spec.name)
-            rec.fail("%s pfx[%s] %s" % (spec.family, ic.x86_prefix_class(instr.b, spec.mode), vd),
+            rec.fail("%s pfx[%s] %s" % (spec.family, prefix_caused[k], vd),
                      "%s [%s] (miasm length %d): %s; without the legacy prefixes miasm and the references agree" % (
                          text, ic.hexs(instr.b), instr.l,
                          "rejected by every reference" if vd == "ref_invalid" else "every reference says %s" % (detail,)), wit)
